@@ -68,12 +68,16 @@ def _chunk(args):
         rules = gen_base(r)
         base_text = tl.render_prog(rules)
         ref = oracles.impl_models([base_text], H, dedup=True)
+        if ref[0] == "err" and ref[1] == "Timeout":
+            continue
         if ref[0] == "err" and ref[1] not in ("RuntimeError", "ClingoError"):
             fails.append({"kind": "exception", "text": base_text, "error": ref[1], "message": ref[2]})
             continue
         for desc, files in variants(r, rules):
             nvar += 1
             got = oracles.impl_models(files, H, dedup=True)
+            if got[0] == "err" and got[1] == "Timeout":
+                continue
             if (got[0], got[1]) != (ref[0], ref[1]):
                 fails.append({"kind": "layout", "variant": desc, "text": base_text + "\n%%% versus (" + desc + ")\n" + "\n%%% next file\n".join(files),
                               "input": [[base_text], files], "reference": str(ref)[:400], "got": str(got)[:400]})
